@@ -28,9 +28,11 @@ if [[ -d $SEED/out/demo$I ]]; then
   rm -rf $OUT/demo; cp -r $SEED/out/demo$I $OUT/demo; rm -rf $OUT/demo/target
   if [[ -f $SEED/out/demo$I/Cargo.toml ]]; then
     git -C $SEED/repo checkout -q -- . ; git -C $SEED/repo apply "$DIFF"
-    ( cd $SEED/out/demo$I && (cargo test --offline >/dev/null 2>&1 && cargo run --offline >/dev/null 2>&1) ); DEMO_WITH=$?
+    rundemo() { if [[ -f run.sh ]]; then sh ./run.sh >/dev/null 2>&1; else cargo test --offline >/dev/null 2>&1 && cargo run --offline >/dev/null 2>&1; fi; }
+    ( cd $SEED/out/demo$I && rundemo ); DEMO_WITH=$?
     git -C $SEED/repo checkout -q -- .
-    ( cd $SEED/out/demo$I && (cargo test --offline >/dev/null 2>&1 && cargo run --offline >/dev/null 2>&1) ); DEMO_WITHOUT=$?
+    ( cd $SEED/out/demo$I && rundemo ); DEMO_WITHOUT=$?
+    find $SEED/out/demo$I -name target -type d -prune -exec rm -rf {} + 2>/dev/null
   fi
 fi
 # 3. checks
